@@ -333,6 +333,14 @@ __gmp_doprnt (const struct doprnt_funs_t *funs, void *data,
                 gmp_str = mpz_get_str (NULL, param.base,
                                        va_arg (ap, mpz_srcptr));
               gmp_integer:
+                /* C99 7.19.6.1: for the integer conversions the 0 flag is
+                   ignored when a precision is given */
+                if (param.prec >= 0 && param.fill == '0')
+                  {
+                    param.fill = ' ';
+                    if (param.justify == DOPRNT_JUSTIFY_INTERNAL)
+                      param.justify = DOPRNT_JUSTIFY_RIGHT;
+                  }
                 ret = __gmp_doprnt_integer (funs, data, &param, gmp_str);
                 (*__gmp_free_func) (gmp_str, strlen(gmp_str)+1);
                 DOPRNT_ACCUMULATE (ret);
@@ -521,12 +529,18 @@ __gmp_doprnt (const struct doprnt_funs_t *funs, void *data,
             break;
 
           case '+':
-          case ' ':
             param.sign = fchar;
+            break;
+          case ' ':
+            /* a "+" overrides a space, whatever their order */
+            if (param.sign == '\0')
+              param.sign = fchar;
             break;
 
           case '-':
+            /* left justify; a 0 flag is ignored when "-" is present */
             param.justify = DOPRNT_JUSTIFY_LEFT;
+            param.fill = ' ';
             break;
           case '.':
             seen_precision = 1;
@@ -544,6 +558,7 @@ __gmp_doprnt (const struct doprnt_funs_t *funs, void *data,
                   if (n < 0)
                     {
                       param.justify = DOPRNT_JUSTIFY_LEFT;
+                      param.fill = ' ';
                       n = -n;
                     }
                   param.width = n;
@@ -559,8 +574,9 @@ __gmp_doprnt (const struct doprnt_funs_t *funs, void *data,
           case '0':
             if (value == &param.width)
               {
-                /* in width field, set fill */
-                param.fill = '0';
+                /* in width field, set fill (ignored with a "-" flag) */
+                if (param.justify != DOPRNT_JUSTIFY_LEFT)
+                  param.fill = '0';
 
                 /* for right justify, put the fill after any minus sign */
                 if (param.justify == DOPRNT_JUSTIFY_RIGHT)
